@@ -5,11 +5,15 @@ lbry.wallet.transaction.Transaction (raw, id, Transaction(raw), _serialize) and
 lbry.wallet.bcd_data_stream.BCDataStream (compact size), on generated transactions, raw byte strings
 (upstream fixtures, segwit encodings, truncations and mutations) and compact-size values; plus the
 property monitor: an independent struct-based Bitcoin transaction codec and hashlib."""
+import asyncio
 import hashlib
 import json
 import os
+import random
+import shutil
 import signal
 import struct
+import tempfile
 
 import lbry.wallet  # noqa: F401  (import order)
 from lbry.wallet.bcd_data_stream import BCDataStream
@@ -176,6 +180,13 @@ def guarded(fn, *args):
         signal.signal(signal.SIGALRM, old)
 
 
+def _touch(tx):
+    try:
+        tx.raw, tx.id, tx.size
+    except Exception:
+        pass
+
+
 def impl_build(t):
     """assemble the transaction through the library API and read .raw / .id"""
     try:
@@ -185,8 +196,16 @@ def impl_build(t):
             h, scr = bytes.fromhex(h), bytes.fromhex(scr)
             ref = TXORef(TXRefImmutable.from_hash(h, -1), idx)
             ins.append(Input(ref, scr if h == NULL32 else InputScript(scr), seq))
-        tx.add_inputs(ins)
-        tx.add_outputs([Output(a, OutputScript(bytes.fromhex(scr))) for a, scr in t['outs']])
+        outs = [Output(a, OutputScript(bytes.fromhex(scr))) for a, scr in t['outs']]
+        # staged assembly with raw/id read in between: the library's own cache invalidation (_reset) is part of
+        # what makes the final raw/id right
+        _touch(tx)
+        tx.add_inputs(ins[:1])
+        _touch(tx)
+        tx.add_inputs(ins[1:])
+        tx.add_outputs(outs[:1])
+        _touch(tx)
+        tx.add_outputs(outs[1:])
     except Exception as e:  # construction itself is not expected to fail
         return {'raw': {'err': 'construct:' + err_name(e)}, 'id': {'err': 'construct:' + err_name(e)}, 'sizes': None}, None
     try:
@@ -194,7 +213,6 @@ def impl_build(t):
     except Exception as e:
         raw = {'err': err_name(e)}
     try:
-        tx._reset()
         txid = bytes.fromhex(tx.id).hex()
     except Exception as e:
         txid = {'err': err_name(e)}
@@ -224,6 +242,10 @@ def _impl_observe(raw):
         if cb != (txi.script is None) or txi.position != i:
             return {'err': 'inconsistent-input-object'}
         scr = txi.coinbase if cb else txi.script.source
+        h = txi.txo_ref.tx_ref.hash
+        # lbry/wallet/hash.py: id is the hex of the reversed hash, and from_id inverts from_hash
+        if txi.txo_ref.tx_ref.id != h[::-1].hex() or TXRefImmutable.from_id(h[::-1].hex(), -1).hash != h:
+            return {'err': 'inconsistent-txref-id'}
         ins.append([txi.txo_ref.tx_ref.hash.hex(), txi.txo_ref.position, scr.hex(), txi.sequence, cb])
     for k, txo in enumerate(tx.outputs):
         if txo.position != k or txo.tx_ref is not tx.ref:
@@ -462,12 +484,16 @@ def gen_tx(rng, size_class):
     ins, outs = [], []
     for k in range(n_in):
         kind, s = g_in_script(rng, big_slot == k)
+        if big_slot == k and rng.random() < 0.6:
+            kind, s = 'opaque', rbytes(rng, rng.choice(LEN_BIG))     # total script length exactly at 65535/65536
         if size_class == 'many' and n_in > 20 and len(s) > 300:
             s = s[:rng.choice([0, 1, 107])]
         kinds.add('in:' + kind)
         ins.append([g_hash(rng).hex(), g32(rng), s.hex(), g32(rng)])
     for k in range(n_out):
         kind, s = g_out_script(rng, big_slot == n_in + k)
+        if big_slot == n_in + k and rng.random() < 0.6:
+            kind, s = 'opaque', rbytes(rng, rng.choice(LEN_BIG))
         if size_class == 'many' and n_out > 20 and len(s) > 300:
             s = s[:rng.choice([0, 25, 252, 253])]
         kinds.add('out:' + kind)
@@ -603,7 +629,11 @@ def run_build(run, model, t, kind, kinds=()):
         if bad:
             run.violation(case, bad, signature={'op': 'build', 'tx': t})
         else:
-            run.compare('C05.build_raw', case, built, mbuilt)
+            # only .raw is compared here: after a failed _serialize the library keeps a half-written
+            # _raw_outputs buffer, so a later .id may hash malformed bytes instead of raising again (outside the
+            # property: the transaction is not representable). Counted for the record, not compared.
+            run.count('build:out-of-range:id-afterwards=' + ('raises' if isinstance(built['id'], dict) else 'returns-an-id'))
+            run.compare('C05.build_raw', case, {'raw': built['raw']}, {'raw': mbuilt['raw']})
         return
     if isinstance(built['raw'], dict):
         run.violation(case, f'serialising an in-range transaction raised {built["raw"]["err"]}',
@@ -695,6 +725,317 @@ def run_cs_read(run, model, b, kind):
     run.compare('C05.read_cs', case, got, model.call('read_cs', s=b.hex()))
 
 
+# ------------------------------------------------------------------------------------------------
+# operation sequences on ONE Transaction object: staged assembly, raw/id/size read in between, outputs and
+# inputs changed IN PLACE, _reset() / sign(), raw/id read again.  What must hold after every _reset():
+# raw is the reference encoding of the fields the object holds NOW (no stale cached blob), id hashes it,
+# and it parses back to those fields.  The model has no cache: build(current fields) is the expected value.
+# ------------------------------------------------------------------------------------------------
+
+def current_fields(tx):
+    ins = []
+    for txi in tx.inputs:
+        scr = txi.coinbase if txi.is_coinbase else txi.script.source
+        ins.append([txi.txo_ref.tx_ref.hash.hex(), txi.txo_ref.position, scr.hex(), txi.sequence])
+    outs = [[txo.amount, txo.script.source.hex()] for txo in tx.outputs]
+    return {'version': tx.version, 'locktime': tx.locktime, 'ins': ins, 'outs': outs}
+
+
+def read_built(tx):
+    out = {}
+    for key, fn in (('raw', lambda: tx.raw.hex()), ('id', lambda: bytes.fromhex(tx.id).hex())):
+        try:
+            out[key] = fn()
+        except Exception as e:
+            out[key] = {'err': err_name(e)}
+    try:
+        out['sizes'] = {'size': tx.size, 'base_size': tx.base_size, 'ins': [i.size for i in tx.inputs],
+                        'outs': [o.size for o in tx.outputs]}
+    except Exception as e:
+        out['sizes'] = {'err': err_name(e)}
+    return out
+
+
+def check_current(run, model, case, tx, label):
+    """monitor + correspondence on the object's present state; returns False when something was reported"""
+    cur = current_fields(tx)
+    built = read_built(tx)
+    bad = None
+    if not in_range(cur):
+        return True
+    if isinstance(built['raw'], dict):
+        bad = f'{label}: serialising raised {built["raw"]["err"]}'
+    else:
+        parsed = impl_observe(bytes.fromhex(built['raw']))
+        bad = monitor_build(cur, built, parsed)
+        if bad:
+            bad = f'{label}: {bad} (fields taken from the Transaction object as it is now)'
+    if bad:
+        run.violation(case, bad, signature={'op': case['op'], 'case': case})
+        return False
+    return run.compare('C05.build_raw', dict(case, at=label), built, model.call('build', tx=cur))
+
+
+def apply_edit(tx, e):
+    k = e['kind']
+    if k == 'regen_out':                       # edit a template value, regenerate the script in place
+        scr = tx.outputs[e['i']].script
+        scr.values[e['field']] = bytes.fromhex(e['value'])
+        scr.generate()
+    elif k == 'out_source':
+        tx.outputs[e['i']].script.source = bytes.fromhex(e['value'])
+    elif k == 'out_script_obj':
+        tx.outputs[e['i']].script = OutputScript(bytes.fromhex(e['value']))
+    elif k == 'out_amount':
+        tx.outputs[e['i']].amount = e['value']
+    elif k == 'regen_in':
+        scr = tx.inputs[e['i']].script
+        scr.values[e['field']] = bytes.fromhex(e['value'])
+        scr.generate()
+    elif k == 'in_seq':
+        tx.inputs[e['i']].sequence = e['value']
+    elif k == 'locktime':
+        tx.locktime = e['value']
+    elif k == 'version':
+        tx.version = e['value']
+    else:
+        raise ValueError(k)
+
+
+def mk_input(row):
+    h, idx, scr, seq = row
+    h, scr = bytes.fromhex(h), bytes.fromhex(scr)
+    return Input(TXORef(TXRefImmutable.from_hash(h, -1), idx), scr if h == NULL32 else InputScript(scr), seq)
+
+
+def run_sequence(run, model, case):
+    """case = {'op': 'seq', 'version', 'locktime', 'steps': [[name, arg]...]}"""
+    if saturated(run):
+        return
+    tx = Transaction(version=case['version'], locktime=case['locktime'])
+    run.case(case, nontrivial=True, sample=len(json.dumps(case)) < 1200)
+    n_checks = 0
+    for step in case['steps']:
+        name = step[0]
+        if name == 'add_in':
+            tx.add_inputs([mk_input(r) for r in step[1]])
+        elif name == 'add_out':
+            tx.add_outputs([Output(a, OutputScript(bytes.fromhex(scr))) for a, scr in step[1]])
+        elif name == 'touch':
+            _touch(tx)
+        elif name == 'edit':
+            apply_edit(tx, step[1])
+            run.count('seq:edit:' + step[1]['kind'])
+        elif name == 'reset':
+            tx._reset()
+        elif name == 'check':
+            n_checks += 1
+            if not tx.inputs:
+                continue
+            if not check_current(run, model, case, tx, 'step %d' % case['steps'].index(step)):
+                return
+    run.count('seq:checks=%d' % n_checks)
+
+
+BLOB_FIELDS = {'claim_name+pay_pubkey_hash': 'claim', 'claim_name+pay_script_hash': 'claim',
+               'update_claim+pay_pubkey_hash': 'claim', 'update_claim+pay_script_hash': 'claim',
+               'support_claim+data+pay_pubkey_hash': 'support', 'support_claim+data+pay_script_hash': 'support',
+               'return_data': 'data'}
+
+
+def gen_sequence(rng):
+    t, _k = gen_tx(rng, 'small')
+    while not t['outs']:
+        t, _k = gen_tx(rng, 'small')
+    # make sure some outputs come from templates with an editable blob; remember each output's template
+    kinds = []
+    for o in t['outs']:
+        kind, scr = g_out_script(rng, False)
+        if rng.random() < 0.7:
+            while kind not in BLOB_FIELDS:
+                kind, scr = g_out_script(rng, False)
+        o[1] = scr.hex()
+        kinds.append(kind)
+    p2pkh_in = []
+    for i in t['ins']:
+        if rng.random() < 0.5 and i[0] != NULL32.hex():
+            i[2] = InputScript.redeem_pubkey_hash(rbytes(rng, 72), rbytes(rng, 33)).source.hex()
+            p2pkh_in.append(True)
+        else:
+            p2pkh_in.append(False)
+    steps = [['add_in', t['ins'][:1]]]
+    if rng.random() < 0.5:
+        steps.append(['touch'])
+    if len(t['ins']) > 1:
+        steps.append(['add_in', t['ins'][1:]])
+    cut = rng.randrange(1, len(t['outs']) + 1)
+    steps.append(['add_out', t['outs'][:cut]])
+    n_out = cut
+    pending = t['outs'][cut:]
+
+    def edits():
+        out = []
+        for _ in range(rng.choice([1, 1, 2, 3])):
+            c = rng.random()
+            i = rng.randrange(n_out)
+            if c < 0.45 and kinds[i] in BLOB_FIELDS:
+                out.append({'kind': 'regen_out', 'i': i, 'field': BLOB_FIELDS[kinds[i]],
+                            'value': rbytes(rng, rng.choice([0, 1, 30, 75, 76, 200, 252, 253, 255, 256, 300])).hex()})
+            elif c < 0.55:
+                out.append({'kind': 'out_source', 'i': i, 'value': rbytes(rng, rng.choice([0, 1, 25, 252, 253])).hex()})
+                kinds[i] = 'opaque'
+            elif c < 0.65:
+                out.append({'kind': 'out_script_obj', 'i': i, 'value': rbytes(rng, rng.choice([0, 2, 25, 253])).hex()})
+                kinds[i] = 'opaque'
+            elif c < 0.8:
+                out.append({'kind': 'out_amount', 'i': i, 'value': g64(rng)})
+            elif c < 0.88:
+                j = rng.randrange(len(t['ins']))
+                if p2pkh_in[j]:
+                    out.append({'kind': 'regen_in', 'i': j, 'field': 'signature', 'value': rbytes(rng, rng.choice([70, 71, 72, 73])).hex()})
+                else:
+                    out.append({'kind': 'in_seq', 'i': j, 'value': g32(rng)})
+            elif c < 0.94:
+                out.append({'kind': 'locktime', 'value': g32(rng)})
+            else:
+                out.append({'kind': 'version', 'value': g32(rng)})
+        return out
+
+    for rnd in range(rng.choice([1, 1, 2, 3])):
+        if rng.random() < 0.85:
+            steps.append(['touch'])               # serialised AFTER the last add_outputs: the blob is cached now
+        for e in edits():
+            steps.append(['edit', e])
+        steps.append(['reset'])
+        steps.append(['check'])
+        if pending and rng.random() < 0.4:
+            k = rng.randrange(1, len(pending) + 1)
+            steps.append(['add_out', pending[:k]])
+            n_out += k
+            pending = pending[k:]
+            steps.append(['check'])
+    return {'op': 'seq', 'version': t['version'], 'locktime': t['locktime'], 'steps': steps}
+
+
+# ---- the daemon's own flows with a real account: create (unsigned) -> set channel key / sign claim by channel
+# ---- (both regenerate an output script in place) -> Transaction.sign (which calls _reset) -> raw / id
+
+class Env:
+    SEED = 'carbon smart garage balance margin twelve chest sword toast envelope bottom stomach absent'
+
+    def __init__(self):
+        from lbry.wallet import Ledger, Database, Headers, Wallet, Account
+        from lbry.wallet.bip32 import PrivateKey
+        from lbry.wallet.mnemonic import Mnemonic
+        self.loop = asyncio.new_event_loop()
+        self.dir = tempfile.mkdtemp(prefix='c05_')
+        self.ledger = Ledger({'db': Database(os.path.join(self.dir, 'b.db')), 'headers': Headers(':memory:')})
+        self.loop.run_until_complete(self.ledger.db.open())
+        self.account = Account.from_dict(self.ledger, Wallet(), {'seed': self.SEED})
+        self.loop.run_until_complete(self.account.ensure_address_gap())
+        self.addresses = self.loop.run_until_complete(self.account.receiving.get_addresses())
+        self.hashes = [self.ledger.address_to_hash160(a) for a in self.addresses]
+        self.root = PrivateKey.from_seed(Ledger, Mnemonic.mnemonic_to_seed(self.SEED, ''))
+
+    def close(self):
+        try:
+            self.loop.run_until_complete(self.ledger.db.close())
+        finally:
+            self.loop.close()
+            shutil.rmtree(self.dir, ignore_errors=True)
+
+
+def _utxo(rng, amount, pkh):
+    feeder = Transaction().add_outputs([Output.pay_pubkey_hash(10 ** 12, rbytes(rng, 20))])
+    pos = rng.choice([0, 0, 1, 2])
+    outs = [Output.pay_pubkey_hash(rng.randrange(1000, 10 ** 9), rbytes(rng, 20)) for _ in range(pos)]
+    outs.append(Output.pay_pubkey_hash(amount, pkh))
+    return Transaction(height=-2).add_inputs([Input.spend(feeder.outputs[0])]).add_outputs(outs).outputs[pos]
+
+
+def run_flow(run, model, env, case):
+    """case = {'op': 'flow', 'flow': 'channel'|'stream', 'seed': int, 'funding': 'exact'|'change'|'manual'}"""
+    if saturated(run):
+        return
+    from lbry.schema.claim import Claim
+    from lbry.wallet.bip32 import KeyPath
+    from lbry.wallet.constants import COIN
+    rng = random.Random(case['seed'])
+    ledger, account, loop = env.ledger, env.account, env.loop
+    run.case(case, nontrivial=True)
+    run.count('flow:%s:%s' % (case['flow'], case['funding']))
+
+    def fund(txo, others):
+        """inputs for txo (+others): exact = no change output gets added (left-over below dust)"""
+        probe = Transaction().add_outputs([Output(o.amount, o.script) for o in [txo] + others])
+        cost = probe.get_base_fee(ledger) + probe.get_total_output_sum(ledger)
+        pkh = rng.choice(env.hashes)
+        spend_fee = Input.spend(_utxo(rng, 1, pkh)).get_fee(ledger)
+        extra = 300 if case['funding'] != 'change' else rng.randrange(10 ** 7, 10 ** 9)
+        return [Input.spend(_utxo(rng, cost + spend_fee + extra, pkh))]
+
+    def assemble(txo, others):
+        outs = others[:]
+        outs.insert(rng.randrange(len(outs) + 1), txo)
+        if case['funding'] == 'manual':
+            tx = Transaction().add_inputs(fund(txo, others)).add_outputs(outs)
+            _touch(tx)
+            return tx
+        return loop.run_until_complete(Transaction.create(fund(txo, others), outs, [account], account, sign=False))
+
+    def plain():
+        return [Output.pay_pubkey_hash(rng.randrange(1000, 10 ** 8), rbytes(rng, 20)) for _ in range(rng.choice([0, 0, 1, 2]))]
+
+    # a channel (always needed: the stream flow signs with it)
+    claim = Claim()
+    claim.channel.title = 'chan %d' % rng.randrange(10 ** 6)
+    chan_out = Output.pay_claim_name_pubkey_hash(COIN, '@ch%d' % rng.randrange(10 ** 6), claim, rng.choice(env.hashes))
+    tx = assemble(chan_out, plain())
+    chan_out.set_channel_private_key(env.root.child(KeyPath.CHANNEL).child(rng.randrange(1000)))   # script.generate() in place
+    if rng.random() < 0.3:
+        tx._reset()
+        if not check_current(run, model, case, tx, 'channel: after set_channel_private_key + _reset'):
+            return
+    loop.run_until_complete(tx.sign([account]))
+    if not check_current(run, model, case, tx, 'channel: after set_channel_private_key + sign'):
+        return
+    parsed = Transaction(tx.raw)
+    try:
+        wire_key = parsed.outputs[chan_out.position].claim.channel.public_key_bytes
+    except Exception as e:
+        wire_key = None
+    if wire_key != chan_out.private_key.public_key.pubkey_bytes:
+        run.violation(case, 'channel: the serialised channel claim does not carry the channel public key the Output holds',
+                      signature={'op': 'flow', 'case': case})
+        return
+    if case['flow'] != 'stream':
+        return
+    stream = Claim()
+    stream.stream.title = 't' * rng.choice([0, 1, 40, 200])
+    if rng.random() < 0.5:
+        stream.stream.source.sd_hash = rbytes(rng, 48).hex()
+    s_out = Output.pay_claim_name_pubkey_hash(COIN, 'stream%d' % rng.randrange(10 ** 6), stream, rng.choice(env.hashes))
+    s_out.sign(chan_out, b'placeholder txid:nout')
+    tx2 = assemble(s_out, plain())
+    s_out.sign(chan_out)                                           # script.generate() in place
+    if rng.random() < 0.3:
+        tx2._reset()
+        if not check_current(run, model, case, tx2, 'stream: after Output.sign(channel) + _reset'):
+            return
+    loop.run_until_complete(tx2.sign([account]))
+    if not check_current(run, model, case, tx2, 'stream: after Output.sign(channel) + sign'):
+        return
+    parsed2 = Transaction(tx2.raw)
+    try:
+        ok = parsed2.outputs[s_out.position].is_signed_by(chan_out, ledger)
+    except Exception:
+        ok = False
+    if not ok:
+        run.violation(case, 'stream: the claim in the serialised transaction is not the one that was signed by the channel',
+                      signature={'op': 'flow', 'case': case})
+
+
+
 def bucket(n):
     for lim in (0, 1, 2, 5, 20, 100, 252, 253, 300):
         if n <= lim:
@@ -765,10 +1106,14 @@ def main(run):
         'build: transactions assembled through the library from generated fields (1..300 inputs/outputs at the '
         'compact-size count boundaries, scripts from every OutputScript/InputScript template plus opaque bytes with '
         'lengths across 75/76/252/253/255/256/65535/65536, 32/64-bit extremes, coinbase and near-coinbase hashes) -> '
-        'raw, id, parse, re-serialise; raw: upstream fixtures, segwit encodings (reference encoder and extracted '
-        'model encoder), every truncation of small transactions, structural mutations (size widening incl. >= 2^63, '
+        'raw, id, parse, re-serialise; seq: operation sequences on one Transaction object (staged add_inputs/add_outputs, '
+        'raw/id/size read in between, output scripts regenerated / amounts, sequences, locktime changed IN PLACE, _reset, '
+        're-read) and the daemon channel-create / channel-signed-stream flows with a real account (set_channel_private_key, '
+        'Output.sign, Transaction.create(sign=False), Transaction.sign) checked against the reference encoding of the '
+        'fields the object holds at that moment; raw: upstream fixtures, segwit encodings (reference encoder and extracted '
+        'model encoder), every truncation and every single-byte overwrite (0/fd/ff) of small transactions, structural mutations (size widening incl. >= 2^63, '
         'marker/flag games, cut-outs, trailing bytes) and random bytes -> Transaction(raw) fields / error class / '
-        'id; cs: compact sizes at all powers of two +-1 and random values, and decoding of arbitrary short byte '
+        'id; cs: compact sizes at all powers of two +-1 and random values, and decoding of every 1-byte and (prefix fc..ff) 2-byte string plus random short '
         'strings. distinct = distinct case dict; non-trivial = every case except raw inputs of <= 4 bytes.')
 
     # ---- corpus first
@@ -794,13 +1139,19 @@ def main(run):
         for tail in range(0, 10):
             run_cs_read(run, model, bytes([first]) + bytes(range(1, tail + 1)), 'prefix')
     run_cs_read(run, model, b'', 'prefix')
+    # exhaustive small scope: every 1-byte string, every 2-byte string (quick: first byte 252..255 only)
+    for a in range(256):
+        run_cs_read(run, model, bytes([a]), 'exhaustive-1')
+    for a in (range(256) if T == 'thorough' else (252, 253, 254, 255)):
+        for b2 in range(256):
+            run_cs_read(run, model, bytes([a, b2]), 'exhaustive-2')
     for _ in range(vlib.scaled(T, 800, 20000)):
         b = bytes([rng.choice([rng.randrange(256), 253, 254, 255])]) + rbytes(rng, rng.randrange(0, 11))
         run_cs_read(run, model, b, 'random')
 
     # ---- generated transactions
     small_valid = []
-    plan = ([('small', vlib.scaled(T, 2000, 40000)), ('many', vlib.scaled(T, 300, 5000)),
+    plan = ([('small', vlib.scaled(T, 2000, 30000)), ('many', vlib.scaled(T, 300, 5000)),
              ('big', vlib.scaled(T, 120, 2000))])
     for size_class, n in plan:
         for _ in range(n):
@@ -818,6 +1169,20 @@ def main(run):
         t, _k = gen_tx(rng, 'many')
         run_segwit(run, model, t, gen_wits(rng, t), 1, 'random-many')
 
+    # ---- operation sequences on one Transaction object (in-place edits, _reset, re-read)
+    for _ in range(vlib.scaled(T, 600, 12000)):
+        run_sequence(run, model, gen_sequence(rng))
+    # ---- the daemon's channel / signed-stream flows with a real account (set_channel_private_key, Output.sign,
+    # ---- Transaction.create(sign=False), Transaction.sign)
+    env = Env()
+    try:
+        for k in range(vlib.scaled(T, 40, 600)):
+            run_flow(run, model, env, {'op': 'flow', 'flow': rng.choice(['channel', 'stream', 'stream']),
+                                       'funding': rng.choice(['exact', 'exact', 'change', 'manual']),
+                                       'seed': rng.getrandbits(48)})
+    finally:
+        env.close()
+
     # ---- exhaustive truncations of small transactions (legacy, coinbase, segwit)
     trunc_sources = [bytes.fromhex(c['raw']) for c in corpus if len(c['raw']) < 500][:vlib.scaled(T, 3, 50)]
     t0 = small_valid[0]
@@ -829,6 +1194,14 @@ def main(run):
             continue
         for cut in range(len(src)):
             run_raw(run, model, src[:cut], 'truncate-all')
+
+    # ---- exhaustive single-byte overwrite at every position of small transactions
+    vals = [0, 1, 0xfc, 0xfd, 0xfe, 0xff] if T == 'thorough' else [0, 0xfd, 0xff]
+    for src in [x for x in trunc_sources if len(x) <= 700][-vlib.scaled(T, 2, 8):]:
+        for i in range(len(src)):
+            for v in vals:
+                if src[i] != v:
+                    run_raw(run, model, src[:i] + bytes([v]) + src[i + 1:], 'setbyte-all')
 
     # ---- structural mutations
     pool = []
@@ -842,7 +1215,7 @@ def main(run):
         t, w = ref_decode(raw)
         pool.append((raw, field_offsets(t, w)))
     pool = [p for p in pool if len(p[0]) < 3000]
-    for _ in range(vlib.scaled(T, 7000, 150000)):
+    for _ in range(vlib.scaled(T, 7000, 100000)):
         raw, offs = rng.choice(pool)
         kind, bad = mutate(rng, raw, offs)
         run_raw(run, model, bad, 'mut-' + kind)
@@ -871,4 +1244,12 @@ def replay(run, case):
         run_cs(run, model, int(case['n']), 'replay')
     elif op == 'cs_read':
         run_cs_read(run, model, bytes.fromhex(case['s']), 'replay')
+    elif op == 'seq':
+        run_sequence(run, model, {k: v for k, v in case.items() if k != 'at'})
+    elif op == 'flow':
+        env = Env()
+        try:
+            run_flow(run, model, env, case)
+        finally:
+            env.close()
     model.close()
